@@ -24,10 +24,14 @@ HARN_CFLAGS = ["-std=gnu11", "-D_GNU_SOURCE", "-g", "-O1", "-fno-builtin", "-fno
                "-Wno-unused-function", "-Wno-unused-variable", "-Wno-unused-but-set-variable",
                "-I%s/src/internal" % REPO, "-I%s/include/qlibc" % REPO, "-I%s/include" % REPO, "-I%s/common" % ENG, "-I%s/seqmc" % ENG]
 FLAVOURS = {
-    "asan": ["-fsanitize=address,undefined", "-fsanitize-recover=address", "-fno-sanitize-recover=undefined",
+    "asan": ["-fsanitize=address,undefined", "-fsanitize-recover=address", "-fno-sanitize-recover=undefined", "-ftrivial-auto-var-init=pattern",
              "-fno-sanitize=alignment,nonnull-attribute", "-DVC_ASAN=1"],
     "tsan": ["-fsanitize=thread", "-DVC_TSAN=1"],
     "plain": [],
+    # unoptimised build without sanitizer: the only flavour in which a read of an uninitialised automatic variable
+    # returns what is really on the stack (an optimiser may pick any convenient value for it); used with the
+    # 0xA5 stack-dirtying of vc.h
+    "o0": ["-O0", "-DVC_O0=1"],
 }
 # repository sources every harness links (http client / database / sockets are outside every property)
 LIB_GLOBS = ["src/containers/*.c", "src/utilities/*.c", "src/internal/*.c", "src/internal/md5/*.c", "src/ipc/*.c",
